@@ -536,6 +536,58 @@ def new_stats():
             "status": {}, "rm_pos": {"first": 0, "other": 0}, "polar_faces": 0, "polar_lateral": 0, "foreign_crashes": []}
 
 
+def bystander_rounds(V, r, n):
+    """Division rounds of the real solver (many threads) in which the mothers do NOT report in list order and a cell that does not divide
+    sits between them: a finely meshed mother first (slow), a small bystander below its division volume, a coarsely meshed mother last (fast).
+    After the round: index = position for every cell, the bystander still there, ids unique, daughters' ids fresh."""
+    import scenarios as SC
+    exe, _ = SC.build("asan")
+    st = {"rounds": 0, "divisions_seen": 0, "bystanders_kept": 0, "failures": 0}
+    for k in range(n):
+        with SC.Workdir() as wd:
+            layout = r.choice([[3, 0, 1], [3, 0, 0, 1], [3, 1, 0, 1], [0, 3, 0, 1]])      # subdivision level of a mother, 0 = bystander
+            cells = []
+            for i, lv in enumerate(layout):
+                ctr = (i * 4.1e-5, 0.0, 0.0)
+                if lv == 0:
+                    cells.append(SC.icosphere(2, 2.5e-6, ctr, (1.0, 0.9, 1.2), 0.17) + (0,))       # volume ~ 7e-17 < division volume 3e-16
+                else:
+                    cells.append(SC.icosphere(lv, 5e-6, ctr, (1.0, 0.85, 1.3), 0.17) + (0,))      # volume ~ 5.8e-16 > 3e-16
+            mesh = os.path.join(wd, "t.vtk")
+            SC.write_vtk(mesh, cells)
+            params = SC.make_params(wd, mesh, "7.5e-7", {"perform_initial_triangulation": "0", "avg_division_volume": "3e-16", "std_division_volume": "0",
+                                                         "min_vol": "1e-19", "std_growth_rate": "0"}, {})
+            th = r.choice([4, 8, 16])
+            res = SC.run(exe, params, 1, th, 1)
+            st["rounds"] += 1
+            args = {"layout_subdivision_levels_0_is_bystander": layout, "threads": th, "scenario": "division round with a bystander between mothers of different mesh sizes"}
+            what, key = SC.classify(res["rc"], res["err"])
+            if what:
+                st["failures"] += 1
+                V.fail_input("division round with a bystander: %s" % what, args, key=key); continue
+            snaps = SC.parse_states(res["out"])
+            if len(snaps) < 2:
+                continue
+            ids0 = [c["id"] for c in snaps[0]["cells"]]
+            ids1 = [c["id"] for c in snaps[1]["cells"]]
+            loc1 = [c["local"] for c in snaps[1]["cells"]]
+            mothers = [i for i in ids0 if i not in ids1]
+            st["divisions_seen"] += len(mothers)
+            by = [ids0[i] for i, lv in enumerate(layout) if lv == 0]
+            st["bystanders_kept"] += sum(1 for b in by if b in ids1)
+            bad = None
+            if loc1 != list(range(len(loc1))):
+                bad = "the position index (local id) of a cell differs from its place in the population list after a division round: local ids %r (cell ids %r -> %r)" % (loc1, ids0, ids1)
+            elif any(b not in ids1 for b in by):
+                bad = "a cell that did not divide disappeared in a division round: %r -> %r" % (ids0, ids1)
+            elif len(set(ids1)) != len(ids1) or any(i <= max(ids0) for i in ids1 if i not in ids0):
+                bad = "persistent cell ids are not unique / fresh after a division round: %r -> %r" % (ids0, ids1)
+            if bad:
+                st["failures"] += 1
+                V.fail_input(bad, args, key=None)
+    return st
+
+
 def run(ctx):
     tier, seed = ctx["tier"], ctx["seed"]
     t0 = time.time()
@@ -572,6 +624,7 @@ def run(ctx):
         oracle_fail += nf
         if k < 3:
             samples.append({"line": line_of(sc), "status": status, "records": len(rec), "oracle_failures": nf})
+    stats["bystander_rounds"] = bystander_rounds(V, Rng(seed).fork("bystander"), 3 if (tier == "quick" and proof["ok"]) else 8)
     rcode, nviol = V.finish()
     import glob, shutil
     for d in glob.glob("/tmp/c08_out_*"):          # output folders of runs that ended in a sanitizer abort / time-out
@@ -597,6 +650,7 @@ def run(ctx):
         "polarisation_faces_checked": stats["polar_faces"], "faces_marked_lateral": stats["polar_lateral"],
         "replayed_states": stats["replayed_states"], "checker_states": stats["checked_states"],
         "model_vs_impl_disagreements": stats["disagreements"], "oracle_failures": oracle_fail,
+        "bystander_division_rounds": stats.get("bystander_rounds"),
         "crashes_outside_the_dereference_sites": stats["foreign_crashes"][:5], "n_crashes_outside": len(stats["foreign_crashes"]),
         "repo_objects_rebuilt": rebuilt, "samples": samples,
     }
